@@ -216,23 +216,14 @@ theorem initWith_inv (cfg : Config S) (P : NodeId → Proto S σ) (hdt : 0 ≤ c
     (pre : List (NodeId × Prog S σ)) : WInv (initWith cfg P pre) :=
   (ext_initWith cfg P pre).inv (init_inv cfg P hdt)
 
-/-- a world reachable from a freshly built simulation by any requests issued through the nodes' providers
-    before the first step (`pre`, possibly none) followed by any number of `step_simulation` calls -/
-def Reachable (cfg : Config S) (P : NodeId → Proto S σ) (w : World S σ) : Prop :=
-  ∃ pre n, w = steps cfg P n (initWith cfg P pre)
-
-/-- the special case without requests before the first step -/
-theorem reachable_of_steps (cfg : Config S) (P : NodeId → Proto S σ) (n : Nat) :
-    Reachable cfg P (steps cfg P n (init cfg P)) := ⟨[], n, rfl⟩
-
-/-- every world obtained from requests before the first step and then any number of steps is covered -/
-theorem reachable_of_pre (cfg : Config S) (P : NodeId → Proto S σ) (pre : List (NodeId × Prog S σ)) (n : Nat) :
-    Reachable cfg P (steps cfg P n (initWith cfg P pre)) := ⟨pre, n, rfl⟩
-
-theorem reachable_inv {cfg : Config S} (hdt : 0 ≤ cfg.dt) {P : NodeId → Proto S σ} {w : World S σ}
-    (h : Reachable cfg P w) : WInv w := by
-  obtain ⟨pre, n, rfl⟩ := h
-  exact (steps_inv cfg hdt P n _ (initWith_inv cfg P hdt pre)).1
+/-- A world reachable from a freshly built simulation by `step_simulation` calls and requests issued
+    through the nodes' providers from OUTSIDE any callback — before the first step, between two steps
+    (an external controller driving the simulation step by step), even after the run has ended — in any
+    number and any order. Requests issued from inside callbacks are part of `step` itself. -/
+inductive Reachable (cfg : Config S) (P : NodeId → Proto S σ) : World S σ → Prop
+  | init : Reachable cfg P (init cfg P)
+  | step {w : World S σ} : Reachable cfg P w → Reachable cfg P (step cfg P w).1
+  | ext {w : World S σ} (n : NodeId) (p : Prog S σ) : Reachable cfg P w → Reachable cfg P (runProg cfg n p w).1
 
 theorem steps_add (cfg : Config S) (P : NodeId → Proto S σ) (m n : Nat) (w : World S σ) :
     steps cfg P (m + n) w = steps cfg P n (steps cfg P m w) := by
@@ -241,8 +232,41 @@ theorem steps_add (cfg : Config S) (P : NodeId → Proto S σ) (m n : Nat) (w : 
   | succ m ih => rw [Nat.succ_add]; exact ih _
 
 theorem reachable_step {cfg : Config S} {P : NodeId → Proto S σ} {w : World S σ}
-    (h : Reachable cfg P w) : Reachable cfg P (step cfg P w).1 := by
-  obtain ⟨pre, n, rfl⟩ := h
-  exact ⟨pre, n + 1, by rw [steps_add]; rfl⟩
+    (h : Reachable cfg P w) : Reachable cfg P (step cfg P w).1 := h.step
+
+theorem reachable_steps {cfg : Config S} {P : NodeId → Proto S σ} {w : World S σ}
+    (h : Reachable cfg P w) (n : Nat) : Reachable cfg P (steps cfg P n w) := by
+  induction n generalizing w with
+  | zero => exact h
+  | succ n ih => exact ih h.step
+
+/-- the special case without external requests -/
+theorem reachable_of_steps (cfg : Config S) (P : NodeId → Proto S σ) (n : Nat) :
+    Reachable cfg P (steps cfg P n (init cfg P)) := reachable_steps .init n
+
+theorem reachable_initWith (cfg : Config S) (P : NodeId → Proto S σ) (pre : List (NodeId × Prog S σ)) :
+    Reachable cfg P (initWith cfg P pre) :=
+  initWith_induction (C := fun w => Reachable cfg P w) .init (fun n p _ h => h.ext n p) pre
+
+/-- requests before the first step, then any number of steps -/
+theorem reachable_of_pre (cfg : Config S) (P : NodeId → Proto S σ) (pre : List (NodeId × Prog S σ)) (n : Nat) :
+    Reachable cfg P (steps cfg P n (initWith cfg P pre)) := reachable_steps (reachable_initWith cfg P pre) n
+
+/-- how invariants are lifted to every reachable world: they hold right after `build()`, one
+    `step_simulation` keeps them, one externally issued request program keeps them -/
+theorem Reachable.rec_inv {cfg : Config S} {P : NodeId → Proto S σ} {I : World S σ → Prop}
+    (h0 : I (Sim.init cfg P))
+    (hs : ∀ w, Reachable cfg P w → I w → I (Sim.step cfg P w).1)
+    (he : ∀ w n p, Reachable cfg P w → I w → I (runProg cfg n p w).1)
+    {w : World S σ} (h : Reachable cfg P w) : I w := by
+  induction h with
+  | init => exact h0
+  | step hw ih => exact hs _ hw ih
+  | ext n p hw ih => exact he _ n p hw ih
+
+theorem reachable_inv {cfg : Config S} (hdt : 0 ≤ cfg.dt) {P : NodeId → Proto S σ} {w : World S σ}
+    (h : Reachable cfg P w) : WInv w :=
+  h.rec_inv (init_inv cfg P hdt) (fun w _ hw => (step_inv cfg hdt P w hw).1)
+    (fun w n p _ hw => (ext_runProg cfg n p w).inv hw)
 
 end Sim
